@@ -61,7 +61,7 @@ class C18(Cfg):
 
     def streams(self, tier, seed, work, dv):
         res = []
-        plan = [(seed, 110, 18)] if tier == "quick" else [(seed, 1200, 18), (seed + 1, 500, 40)]
+        plan = [(seed, 90, 18)] if tier == "quick" else [(seed, 1200, 18), (seed + 1, 500, 40)]
         for i, (sd, n, ln) in enumerate(plan):
             path = os.path.join(work, "random%d.ops" % i)
             lib.sh([dv, "gen", "--prop", "C18", "--seed", str(sd), "--n", str(n), "--len", str(ln), "--out", path], check=True)
